@@ -6,3 +6,4 @@ import ZbossModel.Props.C08
 #print axioms Zboss.Link.C08_zero_only_initially
 #print axioms Zboss.Link.C08_stamp
 #print axioms Zboss.Link.C08_stamp_bytes
+#print axioms Zboss.Link.C08_source_exprs
